@@ -190,7 +190,9 @@ func goEapData(s *SX) eap.EapTypeData {
 	panic("bad eap data " + s.Head())
 }
 func goEap(s *SX) *eap.EAP {
-	return &eap.EAP{Code: eap.EapCode(s.U(1)), Identifier: uint8(s.U(2)), EapTypeData: goEapData(s.At(3))}
+	e := &eap.EAP{Code: eap.EapCode(s.U(1)), Identifier: uint8(s.U(2)), EapTypeData: goEapData(s.At(3))}
+	layout(e, s)
+	return e
 }
 func goPayload(s *SX) message.IKEPayload {
 	switch s.Head() {
@@ -241,11 +243,16 @@ func goPayload(s *SX) message.IKEPayload {
 	}
 	panic("bad payload " + s.String())
 }
-func goPayloads(s *SX) message.IKEPayloadContainer {
+func goPayloadsRaw(s *SX) message.IKEPayloadContainer {
 	var c message.IKEPayloadContainer
 	for _, p := range s.List {
 		c = append(c, goPayload(p))
 	}
+	return c
+}
+func goPayloads(s *SX) message.IKEPayloadContainer {
+	c := goPayloadsRaw(s)
+	layout(&c, s)
 	return c
 }
 func goHeader(h *SX) *message.IKEHeader {
@@ -254,7 +261,25 @@ func goHeader(h *SX) *message.IKEHeader {
 		MessageID: uint32(h.U(6)), NextPayload: uint8(h.U(7))}
 }
 func goMsg(s *SX) *message.IKEMessage {
-	return &message.IKEMessage{IKEHeader: goHeader(s.At(1)), Payloads: goPayloads(s.At(2))}
+	m := &message.IKEMessage{IKEHeader: goHeader(s.At(1)), Payloads: goPayloadsRaw(s.At(2))}
+	layout(m, s)
+	return m
+}
+
+// layout: two thirds of the values (chosen by a hash of the value itself, so that a case always gets the same layout) are
+// re-laid out as sub-slices of shared arenas (see pack.go); one third keep every slice in its own exact-capacity array
+func layout(x interface{}, s *SX) {
+	if packSeed != 0 {
+		packValue(x, packSeed)
+		return
+	}
+	h := uint64(1469598103934665603)
+	for _, ch := range []byte(s.String()) {
+		h = (h ^ uint64(ch)) * 1099511628211
+	}
+	if h%3 != 0 {
+		packValue(x, h|1)
+	}
 }
 
 // outcome helpers ------------------------------------------------------------
